@@ -8,3 +8,21 @@ package node
 //@   requires n != nil
 //@   modifies nothing
 //@   ensures result == (n.Expiration < epoch)
+
+// ---- TEE constraints (C18): the consensus default policy reaches the quote verification ----
+
+//@ import "github.com/oasisprotocol/oasis-core/go/common/sgx/quote"
+
+//@ func TEEFeaturesSGX.ApplyDefaultConstraints
+//@   props C18
+//@   requires fs != nil && sc != nil
+//@   ensures fs.DefaultPolicy != nil ==> sc.Policy != nil
+//@   ensures fs.DefaultPolicy != nil && fs.PCS && fs.DefaultPolicy.PCS != nil ==> sc.Policy.PCS != nil
+//@   ensures old(sc.Policy) != nil ==> sc.Policy == old(sc.Policy)
+//@   note with a consensus default policy configured the constraints end up with a policy, and with PCS enabled with a PCS policy (the runtime's own if it has one, else the default)
+
+//@ func SGXAttestation.Verify
+//@   props C18
+//@   requires sa != nil && sc != nil
+//@   precall quote\.Quote\)\.Verify$ :: cfg != nil && (cfg.SGX.DefaultPolicy != nil ==> argAs[*quote.Policy](0) != nil) && (cfg.SGX.DefaultPolicy != nil && cfg.SGX.PCS && cfg.SGX.DefaultPolicy.PCS != nil ==> argAs[*quote.Policy](0).PCS != nil)
+//@   note the attestation quote is verified under a policy that includes the consensus defaults: with a default policy configured the quote is never judged under NO policy (which makes the verifier fall back to its built-in default and ignores Disabled, the FMSPC blacklist, the minimum TCB evaluation number and the validity period set by consensus) (seed C18_i applied the defaults to a copy of the constraints and verified the quote with the original's policy)
